@@ -1,7 +1,7 @@
 (* C03 — Delete/Erase/Slice remove exactly the requested residues and features
    follow.  Delete maps every location through Expand(i, -n); Slice through
    Expand(end, end-len) then Expand(0, -start). *)
-From GTS Require Import Base Arith Loc Seq BaseLemmas LocProofs EditProofs SeqProofs JoinDen JoinLift UndoProofs RotateProofs RotateJoin InsertSeq Region RegionProofs ResizeProofs SplitConcat SliceSeq.
+From GTS Require Import Base Arith Loc Seq BaseLemmas LocProofs EditProofs SeqProofs JoinDen JoinLift UndoProofs RotateProofs RotateJoin InsertSeq Region RegionProofs ResizeProofs SplitConcat SliceSeq PartialProofs.
 Open Scope Z_scope.
 
 (* residues: seq[:i] + seq[i+n:] *)
@@ -173,3 +173,14 @@ Proof.
   cbv zeta. cbn [feats]. split; [|vm_compute; reflexivity].
   repeat constructor; cbn; lia.
 Qed.
+
+(* an end whose residues were cut off becomes partial: Delete of [i,i+n) on a
+   range of which some residue survives gives a range whose 5' marker is set
+   iff it was set or the first residue was removed, and whose 3' marker is set
+   iff it was set or the last residue was removed *)
+Theorem C03_cut_ends_become_partial : forall s e p5 p3 i n, 0 < n -> s < e -> ~ (i <= s /\ e <= i + n) ->
+  exists s' e', s' < e' /\
+    expand (Ranged s e p5 p3) i (- n) =
+    Ok (Ranged s' e' (p5 || ((i <=? s) && (s <? i + n))) (p3 || ((i <? e) && (e <=? i + n)))).
+Proof. exact delete_marks_cut_ends. Qed.
+Print Assumptions C03_cut_ends_become_partial.
